@@ -958,3 +958,146 @@ pub fn entry_point(tx: &tir::Tx, pparams: &PParams) -> Result<primitives::Tx<'st
         success: true,
     })
 }
+
+/// Verification hooks: thin forwarders that expose private compile functions to
+/// the out-of-tree verification harnesses. Compiled only under `--cfg tx3_verif`
+/// (or under Kani); never part of a normal build.
+#[cfg(any(kani, tx3_verif))]
+pub mod verif_hooks {
+    use super::*;
+
+    pub use super::asset_math::{aggregate_assets, aggregate_values, fold_multiassets};
+    pub use super::plutus_data::{constr, IntoData, TryIntoData};
+
+    pub fn compile_struct(ir: &tir::StructExpr) -> Result<primitives::PlutusData, Error> {
+        super::compile_struct(ir)
+    }
+
+    pub fn compile_data_expr(ir: &tir::Expression) -> Result<primitives::PlutusData, Error> {
+        super::compile_data_expr(ir)
+    }
+
+    pub fn try_as_data(ir: &tir::Expression) -> Result<primitives::PlutusData, Error> {
+        ir.try_as_data()
+    }
+
+    pub fn compile_native_asset_for_output(
+        ir: &tir::AssetExpr,
+    ) -> Result<primitives::Multiasset<primitives::PositiveCoin>, Error> {
+        super::compile_native_asset_for_output(ir)
+    }
+
+    pub fn compile_native_asset_for_mint(
+        ir: &tir::AssetExpr,
+        is_burn: bool,
+    ) -> Result<primitives::Multiasset<primitives::NonZeroInt>, Error> {
+        super::compile_native_asset_for_mint(ir, is_burn)
+    }
+
+    pub fn compile_ada_value(ir: &tir::AssetExpr) -> Result<primitives::Value, Error> {
+        super::compile_ada_value(ir)
+    }
+
+    pub fn compile_value(ir: &tir::AssetExpr) -> Result<primitives::Value, Error> {
+        super::compile_value(ir)
+    }
+
+    pub fn compile_adhoc_script(
+        adhoc: &tir::AdHocDirective,
+    ) -> Result<primitives::ScriptRef<'static>, Error> {
+        super::compile_adhoc_script(adhoc)
+    }
+
+    pub fn compile_output_block(
+        ir: &tir::Output,
+        network: Network,
+    ) -> Result<primitives::TransactionOutput<'static>, Error> {
+        super::compile_output_block(ir, network)
+    }
+
+    pub fn compile_mint_block(tx: &tir::Tx) -> Result<Option<primitives::Mint>, Error> {
+        super::compile_mint_block(tx)
+    }
+
+    pub fn compile_inputs(tx: &tir::Tx) -> Result<Vec<primitives::TransactionInput>, Error> {
+        super::compile_inputs(tx)
+    }
+
+    pub fn compile_outputs(
+        tx: &tir::Tx,
+        network: Network,
+    ) -> Result<Vec<primitives::TransactionOutput<'static>>, Error> {
+        super::compile_outputs(tx, network)
+    }
+
+    pub fn compile_reference_inputs(
+        tx: &tir::Tx,
+    ) -> Result<Vec<primitives::TransactionInput>, Error> {
+        super::compile_reference_inputs(tx)
+    }
+
+    pub fn compile_collateral(tx: &tir::Tx) -> Result<Vec<TransactionInput>, Error> {
+        super::compile_collateral(tx)
+    }
+
+    pub fn compile_required_signers(
+        tx: &tir::Tx,
+    ) -> Result<Option<primitives::RequiredSigners>, Error> {
+        super::compile_required_signers(tx)
+    }
+
+    pub fn compile_validity(
+        validity: Option<&tir::Validity>,
+    ) -> Result<(Option<u64>, Option<u64>), Error> {
+        super::compile_validity(validity)
+    }
+
+    pub fn compile_donation(
+        tx: &tir::Tx,
+    ) -> Result<Option<pallas::codec::utils::PositiveCoin>, Error> {
+        super::compile_donation(tx)
+    }
+
+    pub fn compile_tx_body(
+        tx: &tir::Tx,
+        network: Network,
+    ) -> Result<primitives::TransactionBody<'static>, Error> {
+        super::compile_tx_body(tx, network)
+    }
+
+    pub fn compile_auxiliary_data(
+        tx: &tir::Tx,
+    ) -> Result<Option<primitives::AuxiliaryData>, Error> {
+        super::compile_auxiliary_data(tx)
+    }
+
+    pub fn compile_spend_redeemers(
+        tx: &tir::Tx,
+        compiled_body: &primitives::TransactionBody,
+    ) -> Result<Vec<primitives::Redeemer>, Error> {
+        super::compile_spend_redeemers(tx, compiled_body)
+    }
+
+    pub fn compile_redeemers(
+        tx: &tir::Tx,
+        compiled_body: &primitives::TransactionBody,
+        network: Network,
+    ) -> Result<Option<Redeemers>, Error> {
+        super::compile_redeemers(tx, compiled_body, network)
+    }
+
+    pub fn compile_witness_set(
+        tx: &tir::Tx,
+        compiled_body: &primitives::TransactionBody,
+        network: Network,
+    ) -> Result<primitives::WitnessSet<'static>, Error> {
+        super::compile_witness_set(tx, compiled_body, network)
+    }
+
+    pub fn compute_script_data_hash(
+        witness_set: &primitives::WitnessSet,
+        pparams: &PParams,
+    ) -> Option<primitives::Hash<32>> {
+        super::compute_script_data_hash(witness_set, pparams)
+    }
+}
